@@ -309,6 +309,77 @@ def rule_state(ctx, px):
     ctx.floor(R, n, 4)
 
 
+def rule_render_time(ctx, px):
+    R = "R-C10-RENDER-TIME"
+    ctx.rule(
+        R,
+        "a template filter that reads or advances the per-file name counters (UniqueNameGenerator) is evaluated at render time, "
+        "after the per-file reset: it carries a decorator setting an attribute for which the bundled Jinja's Filter.as_const "
+        "refuses constant folding; a foldable filter with a constant argument is evaluated when the template is compiled, against "
+        "whatever counter state earlier files or earlier runs of the process left behind",
+    )
+    # (1) attributes that stop constant folding, read from the bundled jinja2: `if ... getattr(filter_, '<attr>', False): raise Impossible()`
+    nodes_py = ctx.root / "src" / "nunavut" / "jinja" / "jinja2" / "nodes.py"
+    tree = ast.parse(nodes_py.read_text(encoding="utf-8"))
+    nonfold = set()
+    for cls in [n for n in tree.body if isinstance(n, ast.ClassDef) and n.name == "Filter"]:
+        for fn in [n for n in cls.body if isinstance(n, ast.FunctionDef) and n.name == "as_const"]:
+            call_line = min([c.lineno for c in ast.walk(fn) if isinstance(c, ast.Call) and isinstance(c.func, ast.Name) and c.func.id == "filter_"] or [10 ** 9])
+            for st in ast.walk(fn):
+                if isinstance(st, ast.If) and st.lineno < call_line and any(isinstance(x, ast.Raise) and "Impossible" in ast.unparse(x) for x in st.body):
+                    for c in ast.walk(st.test):
+                        if isinstance(c, ast.Call) and isinstance(c.func, ast.Name) and c.func.id == "getattr" and len(c.args) >= 2 \
+                                and isinstance(c.args[0], ast.Name) and c.args[0].id == "filter_" and isinstance(c.args[1], ast.Constant):
+                            nonfold.add(c.args[1].value)
+    if not nonfold:
+        raise AnalysisError("anchor missing: the attribute test that makes jinja2.nodes.Filter.as_const refuse folding")
+    # (2) nunavut decorators -> attribute they set
+    tm = px.module("nunavut._templates")
+    consts = {t.id: n.value.value for n in tm.tree.body if isinstance(n, ast.Assign) and isinstance(n.value, ast.Constant) and isinstance(n.value.value, str)
+              for t in n.targets if isinstance(t, ast.Name)}
+    deco_attr = {}
+    for fn in [n for n in tm.tree.body if isinstance(n, ast.FunctionDef)]:
+        for c in ast.walk(fn):
+            if isinstance(c, ast.Call) and isinstance(c.func, ast.Name) and c.func.id == "setattr" and len(c.args) == 3 and ast.unparse(c.args[2]) == "True":
+                a = c.args[1]
+                v = a.value if isinstance(a, ast.Constant) else consts.get(a.id if isinstance(a, ast.Name) else "")
+                if v:
+                    deco_attr.setdefault(fn.name, set()).add(v)
+    render_time = sorted(d for d, attrs in deco_attr.items() if attrs & nonfold)
+    ctx.unit("nonfoldable_filter_attributes", sorted(nonfold))
+    ctx.unit("render_time_decorators", render_time)
+    if not render_time:
+        raise AnalysisError("anchor missing: no nunavut decorator sets a non-foldable filter attribute")
+    # (3) template filters/tests that reach the counters
+    n = 0
+    for f in px.all_funcs:
+        if f.outer is not None or f.cls is not None or not (f.name.startswith("filter_") or f.name.startswith("is_") or f.name.startswith("uses_")):
+            continue
+        if not f.module.name.startswith("nunavut.lang."):
+            continue
+        touches = False
+        seen, work = set(), [f]
+        while work and not touches:
+            g = work.pop()
+            if g.qual in seen:
+                continue
+            seen.add(g.qual)
+            for c in ast.walk(g.node):
+                if isinstance(c, ast.Attribute) and isinstance(c.value, ast.Name) and c.value.id == "UniqueNameGenerator":
+                    touches = True
+                if isinstance(c, ast.Call):
+                    work.extend(x for x in px.resolve_call(g, c, by_name_fallback=False) if x.module.name.startswith("nunavut.lang"))
+        if not touches:
+            continue
+        n += 1
+        decos = [d.split("(")[0].split(".")[-1] for d in f.decorators]
+        ok = any(d in render_time for d in decos)
+        ctx.ob(R, f.module.rel, f"{f.short} :: evaluated at render time (decorators {decos or 'none'})", ok,
+               "" if ok else f"none of {render_time}: `'x' | {f.name[len('filter_'):]}` is folded when the template is compiled, before the per-file reset; the name depends "
+               "on what was generated earlier in the process", f.node.lineno)
+    ctx.floor(R, n, 4)
+
+
 def rule_memo(ctx, px, R="R-C10-MEMO"):
     ctx.rule(
         R,
@@ -461,5 +532,6 @@ def run(ctx):
     px = pyfront.PyIndex(ctx.root)
     ts = j2front.TemplateSet(ctx.root)
     rule_state(ctx, px)
+    rule_render_time(ctx, px)
     rule_memo(ctx, px)
     rule_fresh_ctx(ctx, px, ts)
